@@ -373,6 +373,38 @@ def rule_adopt_on_success(ctx: Ctx, fn: Func, callee: str, clause: str, rule="DU
 
 
 # ------------------------------------------------------------------------------------------ WMC
+def _via_new_helper(ctx: Ctx, s: Site, allowed: Callable[[Site], Optional[str]], depth: int = 0) -> Optional[str]:
+    """Who-may-call / who-may-write through a function the pinned tree does not have: lines moved into a new helper are judged by who
+    reaches the helper — allowed iff the helper is referenced somewhere and EVERY reference sits in an allowed function (or in another
+    such helper)."""
+    from .inline import baseline
+
+    f = s.func
+    base = baseline()
+    if f is None or not base or depth > 3:
+        return None
+    top = f
+    while top.outer is not None and (top.relpath, top.qualname) not in base:
+        top = top.outer
+    if (top.relpath, top.qualname) in base:
+        if top is f:
+            return None
+        # a new NESTED function inside an existing one: it is that function's own code
+        fake = Site(s.module, top, s.node, s.kind)
+        return allowed(fake)
+    idx = index(ctx.repo)
+    refs = [r for r in idx.calls(f.name, refs=True) + idx.name_refs(f.name) if in_pkg(r) and r.func is not f]
+    if not refs:
+        return None
+    reasons = []
+    for r in refs:
+        why = allowed(r) or _via_new_helper(ctx, r, allowed, depth + 1)
+        if not why:
+            return None
+        reasons.append(why)
+    return f"new helper {f.qualname}, reached only from: {sorted(set(reasons))[0][:80]}"
+
+
 def rule_callers(ctx: Ctx, clause: str, name: str, allowed: Callable[[Site], Optional[str]], what: str,
                  min_sites: int = 1, refs: bool = True, skip: Callable[[Site], bool] = None):
     """Every call (or method-value reference) of `name` in the package is in an allowed function.
@@ -384,7 +416,7 @@ def rule_callers(ctx: Ctx, clause: str, name: str, allowed: Callable[[Site], Opt
     if len(sites) < min_sites:
         ctx.soft_fail(f"WMC: expected at least {min_sites} call sites of {name}, found {len(sites)}")
     for s in sites:
-        why = allowed(s)
+        why = allowed(s) or _via_new_helper(ctx, s, allowed)
         inst = f"{name} called from {s.qual}"
         if why:
             ctx.ok(clause, "WMC.callers", inst, why=why, file=s.file, line=s.line, function=s.qual)
@@ -407,7 +439,7 @@ def rule_field_writers(ctx: Ctx, clause: str, field: str, allowed: Callable[[Sit
     if len(sites) < min_sites:
         ctx.soft_fail(f"WMC: expected at least {min_sites} writes of field {field}, found {len(sites)}")
     for s in sites:
-        why = allowed(s)
+        why = allowed(s) or _via_new_helper(ctx, s, allowed)
         inst = f"field {field} written in {s.qual}"
         if why:
             ctx.ok(clause, "WMC.writers", inst, why=why, file=s.file, line=s.line, function=s.qual)
@@ -459,6 +491,10 @@ def _reducer_node(repo: Repo, fn: Func, f_expr: ast.AST):
         cand = fn.module.funcs.get(f_expr.id)
         if cand is not None:
             return cand.node, f_expr.id
+        # a local alias of the reducer (`step = _traverse`)
+        binds = [n for n in ast.walk(fn.node) if isinstance(n, ast.Assign) and len(n.targets) == 1 and isinstance(n.targets[0], ast.Name) and n.targets[0].id == f_expr.id]
+        if len(binds) == 1 and not (isinstance(binds[0].value, ast.Name) and binds[0].value.id == f_expr.id):
+            return _reducer_node(repo, fn, binds[0].value)
         return None, f_expr.id
     if isinstance(f_expr, ast.Call) and flow.dump(f_expr.func) in ("ft.partial", "functools.partial", "partial") and f_expr.args:
         return _reducer_node(repo, fn, f_expr.args[0])
